@@ -339,6 +339,6 @@ func init() {
 		Run:    run,
 		Replay: replayFn,
 		Guards: guards,
-		Budget: map[string]time.Duration{"quick": 4 * time.Minute, "thorough": 25 * time.Minute},
+		Budget: map[string]time.Duration{"quick": 12 * time.Minute, "thorough": 45 * time.Minute}, // caps only: the machine is shared, normal runs take a fraction
 	})
 }
